@@ -36,7 +36,7 @@ fn main() {
         eprintln!("CLI binary {} missing (run ./check --setup)", cli.display());
         std::process::exit(2);
     }
-    let scratch_root = PathBuf::from(format!("/verif/target/scratch/{}_{}", id, std::process::id()));
+    let scratch_root = engine::verif_root().join(format!("target/scratch/{}_{}", id, std::process::id()));
     std::fs::create_dir_all(&scratch_root).ok();
     inproc::silence_panics();
     let mut tier = match std::env::var("VERIF_TIER").ok().as_deref() {
